@@ -96,6 +96,7 @@ class Ctx:
         self.canon_cache = {}
         self.fresh = 0
         self.notes = []
+        self.facts = []           # global assumptions usable for simplification (sign of abs arguments)
 
     def atom(self, name):
         if name not in self.atoms:
@@ -173,6 +174,14 @@ def canon(t):
         res = {(): ONE}
         for ch in t.children():
             res = _pmul(res, canon(ch))
+    elif k == z3.Z3_OP_POWER:
+        b_, e_ = t.children()
+        if not (z3.is_rational_value(e_) and e_.denominator_as_long() == 1 and e_.numerator_as_long() >= 1):
+            raise NotPoly('power')
+        res = {(): ONE}
+        pb = canon(b_)
+        for _ in range(e_.numerator_as_long()):
+            res = _pmul(res, pb)
     elif k == z3.Z3_OP_TO_REAL:
         ch = t.children()[0]
         if z3.is_const(ch) and ch.decl().kind() == z3.Z3_OP_UNINTERPRETED:
@@ -606,7 +615,7 @@ class Q:
 
     def substitute(a, pairs):
         def s(t):
-            return t if is_c(t) else z3.substitute(t, *pairs)
+            return t if is_c(t) else z3.simplify(z3.substitute(t, *pairs))
         return Q(s(a.re), s(a.im), {k: (s(t), m) for k, (t, m) in a.den.items()})
 
 
